@@ -55,6 +55,7 @@ def experiment_frame_spec(draw, purpose):
       'layout': draw(st.sampled_from(LAYOUTS)) if purpose != 'c19' else 'flat',
       'perm_seed': draw(st.integers(0, 10 ** 6)),
       'str_ids': draw(st.booleans()),
+      'dup_index': draw(st.sampled_from([0, 0, 0, 2, 5])),
   }
   if purpose == 'c19':
     spec['outlier'] = ({'pos': draw(st.integers(0, N - 1)), 'amount': draw(st.sampled_from([50, 200, 500])),
@@ -204,6 +205,10 @@ def materialise(spec, drop_unassigned=False, permute=True, split_first_treatment
   if permute and spec['perm_seed']:
     rs = np.random.RandomState(spec['perm_seed'] % (2 ** 31))
     df = df.iloc[rs.permutation(len(df))].reset_index(drop=True)
+  if spec.get('dup_index') and spec['layout'] == 'flat':
+    # non-unique index labels (e.g. chunks concatenated without ignore_index)
+    m = max(2, len(df) // spec['dup_index'])
+    df.index = [i % m for i in range(len(df))]
   if spec['layout'] == 'geoindex':
     df = df.set_index(names['key_geo'])
   elif spec['layout'] == 'dateindex':
